@@ -348,3 +348,115 @@ Lemma checked_repeat x n : checked (repeat x n) = repeat (x, true) n.
 Proof. induction n; cbn; [reflexivity | f_equal; exact IHn]. Qed.
 Lemma all_checked_checked l : all_checked (checked l).
 Proof. unfold all_checked, checked. apply Forall_forall. intros w H. apply in_map_iff in H as (p & <- & _). reflexivity. Qed.
+
+(* ================================================================ extensions
+   for length/length.go and error_containers.go (notes/SOURCE_TIE_2.md).
+
+   EXTERNAL functions the translated sources call:
+   * strings.Split(s, sep) for a separator of ONE byte b: the maximal b-free
+     pieces of s, in order.  The definition below is the trusted reading; its
+     characterisation (never empty, no piece contains b, joining the pieces with
+     b gives s back, and it is the ONLY such list) is proved right after it.
+   * utf8.RuneCountInString = rune_count of Base/Utf8.v (Go's decoder).
+   * runewidth.StringWidth is NOT defined: a parameter of the generated definitions. *)
+From Tab Require Import Base.Utf8.
+
+Fixpoint strings_Split1 (s : bytes) (sep : N) : list bytes :=
+  match s with
+  | [] => [[]]
+  | b :: r =>
+      if N.eqb b sep then [] :: strings_Split1 r sep
+      else match strings_Split1 r sep with
+           | [] => [[b]]                 (* unreachable: never empty *)
+           | l :: ls => (b :: l) :: ls
+           end
+  end.
+
+Lemma strings_Split1_nonempty s sep : strings_Split1 s sep <> [].
+Proof.
+  induction s as [|b r IH]; cbn [strings_Split1]; [discriminate|].
+  destruct (N.eqb b sep); [discriminate|]. destruct (strings_Split1 r sep); discriminate.
+Qed.
+
+Lemma strings_Split1_join s sep : join [sep] (strings_Split1 s sep) = s.
+Proof.
+  induction s as [|b r IH]; [reflexivity|]. cbn [strings_Split1].
+  destruct (N.eqb b sep) eqn:Eb.
+  - apply N.eqb_eq in Eb. subst b.
+    rewrite join_cons_ne by apply strings_Split1_nonempty. rewrite IH. reflexivity.
+  - pose proof (strings_Split1_nonempty r sep) as Hne.
+    destruct (strings_Split1 r sep) as [|l ls]; [congruence|].
+    destruct ls as [|l2 ls].
+    + cbn in *. congruence.
+    + rewrite join_cons_ne by discriminate. rewrite join_cons_ne in IH by discriminate.
+      rewrite <- IH. reflexivity.
+Qed.
+
+Lemma strings_Split1_no_sep s sep : Forall (fun l => ~ In sep l) (strings_Split1 s sep).
+Proof.
+  induction s as [|b r IH]; cbn [strings_Split1].
+  - constructor; [intros []|constructor].
+  - destruct (N.eqb b sep) eqn:Eb.
+    + constructor; [intros []|exact IH].
+    + destruct (strings_Split1 r sep) as [|l ls]; [constructor; [|constructor]|].
+      * intros [H|[]]. subst. rewrite N.eqb_refl in Eb. discriminate.
+      * inversion IH; subst. constructor; [|assumption].
+        intros [H|H]; [subst; rewrite N.eqb_refl in Eb; discriminate | contradiction].
+Qed.
+
+(* ... and it is the only list with these three properties *)
+Lemma strings_Split1_unique sep ps : ps <> [] -> Forall (fun l => ~ In sep l) ps ->
+  strings_Split1 (join [sep] ps) sep = ps.
+Proof.
+  induction ps as [|p ps IH]; [congruence|]. intros _ Hf. inversion Hf as [|? ? Hp Hps]; subst.
+  destruct ps as [|q ps].
+  - rewrite join_single. clear IH Hf Hps. induction p as [|b p IHp]; [reflexivity|].
+    cbn [strings_Split1]. destruct (N.eqb b sep) eqn:Eb.
+    + apply N.eqb_eq in Eb. subst. exfalso. apply Hp. left. reflexivity.
+    + rewrite IHp; [reflexivity|]. intros H. apply Hp. right. exact H.
+  - rewrite join_cons_ne by discriminate. specialize (IH ltac:(discriminate) Hps).
+    clear Hf. change ([sep] ++ join [sep] (q :: ps)) with (sep :: join [sep] (q :: ps)).
+    induction p as [|b p IHp].
+    + cbn [app strings_Split1]. rewrite N.eqb_refl. rewrite IH. reflexivity.
+    + cbn [app strings_Split1]. destruct (N.eqb b sep) eqn:Eb.
+      * apply N.eqb_eq in Eb. subst. exfalso. apply Hp. left. reflexivity.
+      * rewrite IHp; [reflexivity|]. intros H. apply Hp. right. exact H.
+Qed.
+
+Definition utf8_RuneCountInString (s : bytes) : Z := Z.of_nat (rune_count s).
+
+(* `for i := range xs`: the indices of xs as it is when the loop is entered *)
+Definition range_idx {A} (xs : list A) : list Z := map Z.of_nat (seq 0 (length xs)).
+
+(* error values, []error, pointers *)
+Definition goerror : Type := option N.      (* None = nil; Some k = an opaque non-nil error *)
+Definition append1 {A} (s : option (list A)) (x : A) : option (list A) := Some (slice_of s ++ [x]).
+Definition deref {A} (p : option A) : M A := match p with Some a => ret a | None => panic end.
+
+Lemma deref_some {A} (a : A) : deref (Some a) = ret a.
+Proof. reflexivity. Qed.
+
+(* a range-over-indices loop whose body, at index k holding x, does nothing but
+   turn the carried locals l into f x l, is a fold *)
+Lemma range_idx_fold {A L L' R} (xs : list A) (body : Z -> L -> M (ctl L L R)) (f : A -> L -> L) :
+  (forall k x l, nth_error xs k = Some x -> body (Z.of_nat k) l = ret (Norm (f x l))) ->
+  forall l, range_loop (L':=L') (range_idx xs) body l = ret (Norm (fold_left (fun l x => f x l) xs l)).
+Proof.
+  intros Hb. unfold range_idx.
+  assert (G : forall rest pre l, xs = pre ++ rest ->
+            range_loop (L':=L') (map Z.of_nat (seq (length pre) (length rest))) body l
+            = ret (Norm (fold_left (fun l x => f x l) rest l))).
+  { induction rest as [|x rest IH]; intros pre l E; cbn [length seq map range_loop fold_left]; [reflexivity|].
+    rewrite (Hb (length pre) x l).
+    - rewrite mbind_ret_l. cbn [iter_k].
+      specialize (IH (pre ++ [x]) (f x l)). rewrite app_length in IH. cbn [length] in IH.
+      rewrite Nat.add_1_r in IH. apply IH. rewrite <- app_assoc. exact E.
+    - rewrite E, nth_error_app2 by lia. rewrite Nat.sub_diag. reflexivity. }
+  intros l. apply (G xs [] l). reflexivity.
+Qed.
+
+Lemma index_last {A} (l : list A) x : index (l ++ [x]) (Zlen (l ++ [x]) - 1) = ret x.
+Proof. apply index_app. rewrite Zlen_app. unfold Zlen. cbn [length]. lia. Qed.
+
+Lemma slice_to_last {A} (l : list A) x : slice_to (l ++ [x]) (Zlen (l ++ [x]) - 1) = ret l.
+Proof. apply slice_to_app. rewrite Zlen_app. unfold Zlen. cbn [length]. lia. Qed.
